@@ -109,3 +109,9 @@ def spec(fn):
 
 
 SPECS = {}
+
+
+def specrec(fn):
+    """a recursive specification predicate: pyvc declares an uninterpreted predicate with the body as its unfolding axiom"""
+    SPECS[fn.__name__] = fn
+    return fn
